@@ -76,7 +76,7 @@ fn c05_strategy(_tier: Tier) -> BoxedStrategy<Case> {
         gen::search_case(SearchOpts {
             prop: "C05",
             cfg: CfgOpts { anchored: 0, casei: 1, prefilter_always: true, sks: vec![crate::case::Sk::Unanchored, crate::case::Sk::Both], ..CfgOpts::default() },
-            pats: PatOpts { w_empty: 1, max_class: 1, long: false, w_shapes, w_adversarial: 1, w_fanout: 0 },
+            pats: PatOpts { w_empty: 1, max_class: 1, long: true, w_shapes, w_adversarial: 1, w_fanout: 0 },
             hay: HayOpts { size_class },
             full_span_only: false,
             alphabets: vec![
@@ -298,7 +298,7 @@ fn c10_strategy(_tier: Tier) -> BoxedStrategy<Case> {
         gen::search_case(SearchOpts {
             prop: "C10",
             cfg: CfgOpts { anchored: 1, casei: 1, ..CfgOpts::default() },
-            pats: PatOpts { w_empty: 3, max_class: 1, long: false, w_shapes: 12, w_adversarial: 1, w_fanout: 0 },
+            pats: PatOpts { w_empty: 3, max_class: 1, long: true, w_shapes: 12, w_adversarial: 1, w_fanout: 0 },
             hay: HayOpts { size_class },
             full_span_only: false,
             alphabets: gen::default_alphabets(),
